@@ -43,11 +43,11 @@ theorem parseString_ok_iff {text : List Char} {s : Schema (nlines text)} :
   | ok s' =>
     cases hv : validate s' with
     | error e =>
-      simp only [reduceCtorEq, Except.ok.injEq, false_iff, not_and]
+      simp only [hv, reduceCtorEq, Except.ok.injEq, false_iff, not_and]
       rintro rfl; rw [hv]; simp
     | ok u =>
       cases u
-      simp only [Except.ok.injEq]
+      simp only [hv, Except.ok.injEq]
       constructor
       · rintro rfl; exact ⟨rfl, hv⟩
       · rintro ⟨rfl, _⟩; rfl
